@@ -28,6 +28,13 @@ def queries(tier, seed):
                         qs.append(Q('acc/%s/%s/%dx%d_a%d_r%d' % (o, pn, w, h, al, res), 'C01/img.cpp', 'h_img', defs=dict(IMG=o, PATH=p, XF1='xf_id', ALGOS=1),
                                     params=[w0, h0, al0, w, h, al], cdefs=dict(VP_RESIDUE=res), unwind=14, tier=tt, timeout=300,
                                     shape=dict(IMG=o, PATH=p, params=[w0, h0, al0, w, h, al], residue=res)))
+        # recreate that raises the alignment of a live image whose old block is large enough only under the old alignment
+        for (w0, h0, al0, w, h, al) in [(2, 1, 0, 1, 1, 8), (3, 1, 0, 2, 1, 16), (2, 2, 2, 1, 2, 32)]:
+            for res in (1, 5, 62):
+                for pth in (4, 5):
+                    qs.append(Q('acc/%s/%s/realign_%dx%d_a%d_to_%dx%d_a%d_r%d' % (o, PATHS[pth], w0, h0, al0, w, h, al, res), 'C01/img.cpp', 'h_img', defs=dict(IMG=o, PATH=pth, XF1='xf_id', ALGOS=1),
+                                params=[w0, h0, al0, w, h, al], cdefs=dict(VP_RESIDUE=res), unwind=14, tier=t if (res != 62 and pth == 4 and not o.startswith('b')) else 'thorough', timeout=300,
+                                shape=dict(IMG=o, PATH=pth, params=[w0, h0, al0, w, h, al], residue=res)))
         for f in XFS:
             d = dict(IMG=o, PATH=4, XF1=f, ALGOS=1)
             for (w, h) in [(3, 2), (2, 3), (1, 1)]:
